@@ -81,15 +81,73 @@ def expect_reject(c, w, sock, fn, what, allowed=(TypeError, ValueError)):
         c.fail('C03: %s was rejected but bytes were written' % what)
 
 
+def _run_compressed(c, w, ws, sock, P):
+    """permessage-deflate negotiated (abstract zlib): RSV1 iff the caller asked for compression, and the reference
+    peer restores the payload"""
+    from lomond.compression import Deflate
+    from .deflate import RefPeerInflater
+    ws.state.compression = Deflate(15, 15, False, False)
+    which = c.choose(2, 'api')
+    comp = bool(c.boolean('compress_arg'))
+    n = [0, 1, 3][c.choose(3, 'len')]
+    data = [c.byte('d%d' % i) for i in range(n)]
+    if which == 0:
+        if c.concrete is None:
+            for b in data:
+                c.assume(z3.ULT(b.e, 0x80))
+        else:
+            data = [b & 0x7F for b in data]
+        ws.send_text(mk_str(data) if c.concrete is None else bytes(data).decode('ascii'), compress=comp)
+        op = 1
+    else:
+        ws.send_binary(mk_bytes(data), compress=comp)
+        op = 2
+    writes = [e[2] for e in w.log if e[0] == 'write' and e[1] == sock.id]
+    if len(writes) != 1:
+        c.fail('C03: send on a compressed connection performed %d writes' % len(writes))
+    frames = refmodel.decode_client_frames(items_of(writes[0]))
+    if len(frames) != 1:
+        c.fail('C03: %d frames written' % len(frames))
+    f = frames[0]
+    if not f['fin'] or f['opcode'] != op or f['rsv2'] or f['rsv3'] or not f['minimal']:
+        c.fail('C03: wrong FIN/opcode/RSV2/RSV3/length form on a compressed connection')
+    if f['rsv1'] != comp:
+        c.fail('C03: RSV1=%s although compression negotiated and compress=%s was requested' % (f['rsv1'], comp),
+               sig='C03: RSV1 does not follow the compress argument')
+    if comp:
+        try:
+            got = RefPeerInflater(c, 15, False).inflate(f['payload'])
+        except ValueError as e:
+            c.fail('C03: peer cannot inflate the compressed frame: %s' % e)
+        c.prove(eq_items(got, data), 'C03: inflating the written frame does not give the caller payload')
+    else:
+        c.prove(eq_items(f['payload'], data), 'C03: uncompressed frame payload differs from the caller payload')
+    cls = 'compressed:%s:%s:%d' % ('text' if op == 1 else 'binary', comp, n)
+    # (write lengths differ between the abstract codec and the real zlib used in replays: not part of the observable)
+    return {'cls': cls, 'sample': {'call': cls}, 'observe': {'call': cls, 'nwrites': len(writes)}}
+
+
 LENS_QUICK = [0, 1, 2, 3, 4, 5, 7, 8, 124, 125, 126, 127, 128]
 LENS_THOROUGH = LENS_QUICK + [6, 65535, 65536, 65537]
 CTRL_LENS = [0, 1, 4, 5, 124, 125]
 
 
 def run_build(c, P):
+    try:
+        return _run_build(c, P)
+    except (TypeError, ValueError) as e:
+        # an argument the property requires to be accepted was rejected
+        c.fail('C03: a sendable call was rejected with %s: %s' % (type(e).__name__, e), sig='C03: sendable call rejected')
+    except Exception as e:
+        c.fail('C03: call raised %s: %s' % (type(e).__name__, e))
+
+
+def _run_build(c, P):
     w = new_world()
     ws, sock = connected(c, w)
     kind = P['kind']
+    if kind == 'compressed':
+        return _run_compressed(c, w, ws, sock, P)
     lens = P['lens']
     cls = kind
     if kind == 'binary':
